@@ -144,6 +144,8 @@ def _expand(prog, call, owner_cls, module, depth, targets=None):
     """(stmts, result expr) for an inlinable call, else None."""
     if depth <= 0 or not isinstance(call, ast.Call) or any(isinstance(a, ast.Starred) for a in call.args):
         return None
+    if (dotted(call.func) or "").split(".")[-1] in _EXCLUDE:
+        return None             # the caller wants to see this call as a call
     h = None
     skip = 0
     d = dotted(call.func) or ""
@@ -314,6 +316,22 @@ def _rewrite_block(prog, stmts, owner_cls, module, depth):
                 if not isinstance(res, str):
                     out.extend(_rewrite_block(prog, [ast.copy_location(ast.Assign(targets=st.targets, value=res), st)], owner_cls, module, depth - 1))
                 continue
+        elif isinstance(st, ast.If) and (isinstance(st.test, ast.Call) or (isinstance(st.test, ast.UnaryOp) and isinstance(st.test.op, ast.Not)
+                                                                     and isinstance(st.test.operand, ast.Call))):
+            # `if [not] helper(...):` - the call is the first thing the statement evaluates, so its body may run in front of it:
+            #     <body of helper, result in a fresh local>; if [not] <result>: ...
+            call = st.test if isinstance(st.test, ast.Call) else st.test.operand
+            # methods of the class only: module-level predicates (validate_exons, overlaps, ...) are vocabulary the rules read in tests
+            exp = _expand(prog, call, owner_cls, module, depth) if isinstance(call.func, ast.Attribute) else None
+            if exp and exp[1] is not None and not isinstance(exp[1], str):
+                body, res = exp
+                out.extend(_rewrite_block(prog, body, owner_cls, module, depth - 1))
+                if isinstance(st.test, ast.Call):
+                    st.test = res
+                else:
+                    st.test = ast.copy_location(ast.UnaryOp(op=ast.Not(), operand=res), st.test)
+                out.append(st)
+                continue
         elif isinstance(st, ast.Return) and st.value is not None:
             exp = _expand(prog, st.value, owner_cls, module, depth)
             if exp and exp[1] is not None:
@@ -337,7 +355,19 @@ def _link(node, parent, module):
 _INSTANCES = {}
 
 
-def inlined(prog, func, depth=2):
+_EXCLUDE = set()
+
+
+def inlined(prog, func, depth=2, exclude=()):
+    global _EXCLUDE
+    _EXCLUDE = set(exclude)
+    try:
+        return _inlined(prog, func, depth)
+    finally:
+        _EXCLUDE = set()
+
+
+def _inlined(prog, func, depth=2):
     module = getattr(func, "_module", None)
     owner = getattr(func, "_parent", None)
     owner_cls = owner if isinstance(owner, ast.ClassDef) else None
